@@ -108,6 +108,18 @@ func TestC08Detect(t *testing.T) {
 			n := rapid.SampledFrom([]int{65536, 70000, 140000, 300000}).Draw(t, "hugeN")
 			c.Results[0].Body = bytes.Repeat([]byte{0xA7, 'x', '"', ','}, n/4)
 		}
+		if c.Codec != "csv" && rapid.IntRange(0, 7).Draw(t, "sparsefirst") == 0 {
+			// a first record with hardly anything in it: no instant, no names, no status - a failed hit's latency and
+			// error text at most (CSV cannot carry "no instant", the other two can)
+			first := c.Results[0]
+			c.Results[0] = vegeta.Result{}
+			switch rapid.IntRange(0, 2).Draw(t, "sparsekind") {
+			case 1:
+				c.Results[0] = vegeta.Result{Latency: first.Latency, Error: first.Error, BytesIn: first.BytesIn, BytesOut: first.BytesOut}
+			case 2:
+				c.Results[0] = vegeta.Result{Latency: first.Latency, Body: first.Body, Headers: first.Headers}
+			}
+		}
 		c.Chunks = c08Chunks(t)
 		c.EOFWithData = rapid.IntRange(0, 2).Draw(t, "eofwithdata") == 0
 		if rapid.IntRange(0, 4).Draw(t, "seekable") == 0 {
